@@ -437,7 +437,7 @@ pub fn gen(prop: &str, tier: &str, seed: u64) -> Vec<String> {
             fam_pairs("rel", false, &pairs_related(&s, false, if t { 20 } else { 4 }, seed), &mut out);
         }
         "C07" => {
-            let h = histories(false, tier, seed, false, false);
+            let h = histories(false, tier, seed, true, false);
             // Spec/StdBuf.lean against a real std::path::PathBuf, on the same histories
             let std_lines: Vec<String> = h.iter().map(|l| l.replacen("hist u ", "stdhist ", 1)).collect();
             out.extend(h);
